@@ -251,6 +251,11 @@ class Profile(HookHost):
 
         polygon = clip_by_rect(poly, -width / 2, -math.inf, width / 2, math.inf)
 
+        if not polygon.is_valid:
+            raise ValueError(
+                "The given dimensions yield a degenerate cross-section. May be caused by overfilling with closed gap."
+            )
+
         return cls(cross_section=refine_cross_section(polygon), classifiers=set(groove.classifiers), **kwargs)
 
     @classmethod
